@@ -422,6 +422,7 @@ struct C06 : World {
     p.knobs["dx_cor"] = r.chance(1, 2);
     p.knobs["xfer_seed"] = (int64_t)(r.next() >> 1);
     p.knobs["xfer_mode"] = (int64_t)r.below(6);
+    p.knobs["abandon"] = r.chance(1, 2) ? 0 : 1 + (int64_t)r.below(3);  // abandoned coroutine packets behind the closing frame
     p.knobs["pay_mode"] = r.chance(1, 2) ? 0 : (int64_t)r.below(4);
     bool with_raw = r.chance(1, 3);
     int bpl = r.chance(1, 3) ? 720 : r.chance(1, 2) ? 1 + (int)r.below(720) : 1 + (int)r.below(300);
@@ -550,6 +551,7 @@ struct C06 : World {
     Bytes pipe; size_t pipe_rd = 0;
     bool in_feed = false;
     Task* transport = nullptr; bool transport_waiting = false; bool producer_done = false;
+    bool to_pipe = true;  // false: the application discards the multiplexer's output (frames behind an abandoned packet)
   };
 
   static vbi_bool mux_cb(vbi_dvb_mux*, void* ud, const uint8_t* packet, unsigned size) {
@@ -558,7 +560,7 @@ struct C06 : World {
     if (!s->in_feed) s->ctx->fail("oracle:mux-callback", "callback outside vbi_dvb_mux_feed");
     if (s->ts && size != 188) s->ctx->fail("oracle:mux-callback", "TS mode callback with %u bytes", size);
     s->frame_bytes.append((const char*)packet, size);
-    s->pipe.append((const char*)packet, size);
+    if (s->to_pipe) s->pipe.append((const char*)packet, size);
     s->ctx->log("mux cb %u bytes", size);
     return TRUE;
   }
@@ -763,7 +765,7 @@ struct C06 : World {
           if (bp < buf || wrote > size || bl != size - wrote) { ctx.fail("oracle:mux-cor-pointer", "vbi_dvb_mux_cor: buffer +%ld, buffer_left %u, size %zu", (long)(bp - buf), bl, size); free(buf); break; }
           for (size_t i = wrote; i < size; i++) if (buf[i] != 0xA5) { ctx.fail("oracle:mux-cor-pointer", "vbi_dvb_mux_cor wrote beyond the returned position"); break; }
           st.frame_bytes.append((const char*)buf, wrote);
-          st.pipe.append((const char*)buf, wrote);
+          if (st.to_pipe) st.pipe.append((const char*)buf, wrote);
           free(buf);
           if (k < 40 || left == 0) ctx.log("cor call %d buf %zu -> wrote %zu, sliced_left %u", k, size, wrote, left);
           if (left == 0) {
@@ -908,6 +910,44 @@ struct C06 : World {
         Line l; l.line = 7; l.svc = 0; l.data = gen_payload(42, 4242, 4, 9999);
         if (cfg.max < 184) cfg.max = 184;
         do_frame({l}, 0x1ABCDEF01ll, (int)(plan.knob("xfer_seed") & 1), 0, 4, 0, true);
+      }
+      // ---- abandoned packets (behind the closing frame, so that the round trip of the real frames is not disturbed):
+      // the application reads a packet through the coroutine interface up to some byte, loses interest and either calls
+      // vbi_dvb_mux_reset() ("will encode a new PES packet, discarding any data of the previous packet which has not been
+      // consumed") or feeds the next frame through vbi_dvb_mux_feed().  Whatever was handed out so far is dropped by the
+      // application; the packets of the following frames must be well-formed again (any continuity counter is accepted
+      // on the first TS packet: packets were discarded) and the multiplexer must stay usable.
+      int nab = (int)(llabs(plan.knob("abandon", 0)) % 4);
+      st.to_pipe = false;
+      for (int a = 0; a < nab && !ctx.failed; a++) {
+        uint64_t h = hash_mix((uint64_t)plan.knob("xfer_seed") ^ 0xABADull, (uint64_t)a);
+        std::vector<Line> ls;
+        if (cfg.max < 184) cfg.max = 184;
+        int nl = 1 + (int)(h % 6);
+        if (nl > (int)(cfg.max / 46) - 1) nl = (int)(cfg.max / 46) - 1;   // the frame has to fit the configured maximum packet size
+        for (int i = 0; i < nl; i++) { Line l; l.line = 7 + i * 2; l.svc = 0; l.data = gen_payload(42, h + (uint64_t)i, 4, 7000 + a * 10 + i); ls.push_back(l); }
+        size_t n = ls.size();
+        vbi_sliced* arr = (vbi_sliced*)malloc(n * sizeof(vbi_sliced));
+        for (size_t i = 0; i < n; i++) { memset(&arr[i], 0, sizeof arr[i]); arr[i].id = SVC[0].id; arr[i].line = (uint32_t)ls[i].line; memcpy(arr[i].data, ls[i].data.data(), 42); }
+        size_t cut = 1 + (size_t)((h >> 8) % ((h >> 20) & 1 ? 187u : 600u));
+        unsigned char* buf = (unsigned char*)malloc(cut);
+        uint8_t* bp = buf; unsigned bl = (unsigned)cut; const vbi_sliced* sl = arr; unsigned left = (unsigned)n; vbi_bool r;
+        budget_begin("vbi_dvb_mux_cor", 20000000);
+        { SutScope ss; r = vbi_dvb_mux_cor(st.mx, &bp, &bl, &sl, &left, (vbi_service_set)-1, nullptr, nullptr, 0x12345678 + a); }
+        budget_end();
+        ctx.log("abandon %d: cor with %zu bytes -> %d, wrote %ld, left %u", a, cut, (int)r, (long)(bp - buf), left);
+        free(buf);
+        if (!r) { ctx.fail("oracle:mux-rejected-valid", "abandon sequence %d: a valid frame of %zu Teletext lines was rejected by vbi_dvb_mux_cor", a, n); free(arr); break; }
+        if (left != 0) ctx.count("packets_abandoned_midway");
+        bool by_feed = ((h >> 32) & 1) && !mux_nocb;
+        if (!by_feed) { SutScope ss; vbi_dvb_mux_reset(st.mx); ctx.count("abandoned_by_reset"); } else ctx.count("abandoned_by_feed");
+        free(arr);
+        ts_cc = -1;
+        // the next frame(s): through feed (when abandoning by feed: necessarily) or the coroutine
+        Line l; l.line = 9; l.svc = 0; l.data = gen_payload(42, h ^ 77, 4, 8000 + a);
+        if (cfg.max < 184) cfg.max = 184;
+        do_frame({l}, 0x100000000ll + a, by_feed ? 0 : (int)((h >> 33) & 1), 0, (int)((h >> 34) % 600), 0, true);
+        if (!ctx.failed) { Line l2; l2.line = 11; l2.svc = 0; l2.data = gen_payload(42, h ^ 99, 4, 8100 + a); do_frame({l2}, 0x100000100ll + a, (int)((h >> 44) & 1), 0, (int)((h >> 45) % 600), 0, true); }
       }
       st.producer_done = true;
       wake_transport();
